@@ -698,15 +698,21 @@ impl<'a> Driver<'a> {
         match guard(|| b.null_move()) {
             Some(Some(n)) => {
                 *b = n;
-                self.out.emit("null", &format!("\"res\":\"some\",\"st\":{}", proj(b)));
+                // the same position constructed afresh (builder route): hash and equality
+                let fresh = guard(|| BoardBuilder::from_board(b).build().ok()).flatten();
+                let (fh, feq) = match &fresh {
+                    Some(x) => (format!("{:016x}", x.hash()), x == b),
+                    None => ("none".to_string(), false),
+                };
+                self.out.emit("null", &format!("\"res\":\"some\",\"fh\":\"{}\",\"feq\":{},\"st\":{}", fh, feq, proj(b)));
                 true
             }
             Some(None) => {
-                self.out.emit("null", &format!("\"res\":\"none\",\"st\":{}", proj(b)));
+                self.out.emit("null", &format!("\"res\":\"none\",\"fh\":\"\",\"feq\":false,\"st\":{}", proj(b)));
                 false
             }
             None => {
-                self.out.emit("null", &format!("\"res\":\"panic\",\"st\":{}", proj(b)));
+                self.out.emit("null", &format!("\"res\":\"panic\",\"fh\":\"\",\"feq\":false,\"st\":{}", proj(b)));
                 false
             }
         }
